@@ -66,10 +66,10 @@ prop("C07", [RT.rule_SL, LK.rule_AT2, RO.rule_EF2, RO.rule_EF3, SQ.rule_SQ3, SQ.
      "refund adds slots(stored blob) and is persisted in the deletion's transaction; one critical section per balance update; only completion refunds; one divisor (2048) at all charge/refund sites; "
      "the balance reported is the one computed and persisted; a charge is always followed by the store (no refusal after the balance moved) (CBS); the reads the charge and the refund are computed from range over every stored appointment of the uuid, triggered or not (SQ4 query-scope table); a refused registration writes nothing to the live record, so no slots are minted by a request that was turned down (SB all-or-nothing). NOT decided: the conservation law over histories, the float slot formula per blob length.",
      technique="comparison/arithmetic shape rules over origin terms + lock spans")
-prop("C08", [RT.rule_RC, WT.rule_WT3, SQ.rule_SQ2, LK.rule_AT2, ED.rule_ED, DX.rule_DX, RO.rule_OR2_watcher],
+prop("C08", [RT.rule_RC, WT.rule_WT3, SQ.rule_SQ2, LK.rule_AT2, ED.rule_ED, DX.rule_DX, RO.rule_OR2_watcher, LK.rule_AT1],
      STATIC + "Decided: an appointment receipt is returned only on paths that stored the appointment / handed it to the responder, is built from the same ExtendedAppointment (request signature, "
      "height at acceptance) and is signed with the tower key; registration receipts are built from the persisted record; gRPC responses map like-named fields (RC); signed layouts cover every field "
-     "once with at most one variable-length component, integers whole through to_be_bytes of their own width (WT3); updates rewrite all mutable columns, inserts/updates bind parameters in column order (SQ2); every read-modify-write of a user record is one critical section, so the record a registration receipt was built from is not overwritten by a concurrent stale copy (AT2); a late-triggered appointment is given up only when the Responder answered Rejected, so a receipt never stands for an appointment dropped without cause (OR2w). NOT decided: signature validity, byte-for-byte read-back.",
+     "once with at most one variable-length component, integers whole through to_be_bytes of their own width (WT3); updates rewrite all mutable columns, inserts/updates bind parameters in column order (SQ2); every read-modify-write of a user record is one critical section, so the record a registration receipt was built from is not overwritten by a concurrent stale copy (AT2); a late-triggered appointment is given up only when the Responder answered Rejected, so a receipt never stands for an appointment dropped without cause (OR2w); the cache look-up that finds the dispute confirmed and the store / hand-over that acts on it are one critical section of the locator cache, so a reorg or a re-submission cannot slip between 'confirmed' and 'dropped because the node refused' (AT1). NOT decided: signature validity, byte-for-byte read-back.",
      technique="dominance + field-level origin tracing + SQL/bind-order tables")
 prop("C09", [RT.rule_SB, RO.rule_OR2_gatekeeper, RO.rule_OR1, SQ.rule_SQ1, RT.rule_AU1, CF.rule_CF, LK.rule_AT5],
      STATIC + "Decided: expired = (height >= subscription_expiry) reporting that expiry; outdated = (block_height >= subscription_expiry + expiry_delta); renewal = checked_add(expiry, duration).unwrap_or(MAX) "
@@ -94,7 +94,7 @@ prop("C13", [PL.rule_PL6, PL.rule_PL2, PL.rule_PL7, PL.rule_PL8, PL.rule_PT],
      "Retrier::run makes progress or leaves; run only under the bounded exponential back-off built from the configured values (PL2); reload on start and on idle wake-up (PL7); each outcome arm sets the documented status, "
      "predicate tables (PL8). NOT decided: delays, the back-off schedule, 'within the configured delays'.",
      technique="gate facts on channel sends + CFG progress analysis + enum predicate tables by abstract evaluation")
-prop("C14", [PL.rule_PL4, PL.rule_PL5, PN.rule_PN_plugin, PL.rule_PL1, PL.rule_PL2, PL.rule_PL7, IX.rule_IXp],
+prop("C14", [PL.rule_PL4, PL.rule_PL5, PN.rule_PN_plugin, PL.rule_PL1, PL.rule_PL2, PL.rule_PL7, IX.rule_IXp, PL.rule_PL8],
      STATIC + "Decided: add_update_tower only under receipt.verify(tower_id) == true of the same receipt, strict extension of expiry and slots for a known tower; appointment receipts accepted only if the recovered signer "
      "equals the tower id, otherwise SignatureError -> proof persisted before the status flips -> permanent on the retry path (PL4); sends only to reachable towers, status predicate tables (PL5); no reply class panics (PNp), "
      "is left unrecorded (PL1) or wedges the retry loop (PL2); the in-memory status that gates sending is written only by the listed mutators and never rebuilt from a reply (PL7); no index/slice/positional operation or explicit panic on reply-driven paths is undischarged (IXp). NOT decided: 'any reply' for panics inside reqwest/serde.",
